@@ -79,7 +79,7 @@ func (s *script) finishHeld(hc *heldCall, from int) {
 		if from == 0 {
 			s.e.tr.Emit(s.e.seqEvent(hc.x, hc.sess, hc.slot, hc.seq, hc.cache, hc.ops, "PANIC"))
 		}
-		s.e.panicEvent(hc.x, hc.ops, r.pan)
+		s.e.panicEvent(hc.x, hc.ops, r.pan, true)
 		s.dead = true
 		return
 	}
@@ -131,7 +131,7 @@ func (s *script) duplicate(hc *heldCall, cache bool, ops []*Op) *dupCall {
 		defer s.e.freeCtx(d.x)
 		if r.pan != "" {
 			s.e.tr.Emit(s.e.seqEvent(d.x, hc.sess, hc.slot, hc.seq, cache, ops, "PANIC"))
-			s.e.panicEvent(d.x, ops, r.pan)
+			s.e.panicEvent(d.x, ops, r.pan, false)
 			s.dead = true
 			return d
 		}
@@ -158,7 +158,7 @@ func (s *script) collect(d *dupCall) bool {
 	case r := <-d.done:
 		defer s.e.freeCtx(d.x)
 		if r.pan != "" {
-			s.e.panicEvent(d.x, nil, r.pan)
+			s.e.panicEvent(d.x, nil, r.pan, false)
 			s.dead = true
 			return true
 		}
@@ -266,7 +266,7 @@ func TestInFlight(t *testing.T) {
 		hung := false
 		synctest.Test(t, func(t *testing.T) {
 			s := newScript(tr, 100+i, sc.name, []string{"a", "b"})
-			sc.run(s)
+			runGuarded(s, sc)
 			if s.dead {
 				hung = true
 				tr.Close()
